@@ -53,6 +53,7 @@ type Op struct {
 	State string `json:"state,omitempty"`
 
 	Ms     int    `json:"ms,omitempty"`
+	Soft   bool   `json:"soft,omitempty"`
 	Code   int    `json:"code,omitempty"`
 	Signal int    `json:"signal,omitempty"`
 	Reason string `json:"reason,omitempty"`
@@ -218,6 +219,11 @@ func (h hangError) Error() string { return h.what }
 
 func (r *runner) until(op *Op) error {
 	deadline := time.Now().Add(r.opWait)
+	if op.Soft && op.Ms > 0 {
+		// a soft wait (programs generated from behaviours of the specification: the real run may legitimately take
+		// another course): wait at most op.Ms, then go on
+		deadline = time.Now().Add(time.Duration(op.Ms) * time.Millisecond)
+	}
 	for {
 		ok := false
 		switch {
@@ -264,6 +270,9 @@ func (r *runner) until(op *Op) error {
 			return nil
 		}
 		if time.Now().After(deadline) {
+			if op.Soft {
+				return nil
+			}
 			return hangError{fmt.Sprintf("until %+v not reached", *op)}
 		}
 		time.Sleep(200 * time.Microsecond)
